@@ -5,6 +5,9 @@ a host module that has its own globals; each hit has different local state.  The
 condition and every expression itself in the frame's own (f_globals, f_locals) and feeds the truth stream to
 the reference limiter: a rejected hit (false or failing) produces nothing and consumes no budget.
 """
+import keyword
+import warnings
+
 from hypothesis import strategies as st
 
 from vf import lab, oracle
@@ -71,6 +74,11 @@ BOOL_CONDS = ['y', 't', 'not y', 'y and t', 'G > 50', 'G == x', 'x > 3', 'flag',
               'isinstance(x, int)', "'a' in s", 'x in GLIST', 'helper(x) > 4', 'len(s) > 2', 'x == G',
               # text literals in which white space matters
               "s == 'a  b'", "'  ' in s", "'\t' in s", "s == 'a b'"]
+# a generator expression / lambda inside the expression: the frame's locals are its enclosing scope
+NESTED_CONDS = ['any(v > x for v in GLIST)', '(lambda: x > 3)()', 'all(v != x for v in GLIST)',
+                'any(v > G for v in [1, 50, 200])', 'any(v > 1 for v in GLIST)']
+NESTED_WATCHES = ['sum(v for v in GLIST if v > x)', '(lambda: x + 1)()', '[v + x for v in GLIST]',
+                  'max(v * G for v in GLIST)', 'sorted(k for k in s)', 'list(map(lambda v: v + x, GLIST))']
 BLANK_CONDS = ['', '  ']
 FAIL_CONDS = ['yes', 'true', 'Y', '1/0', 'undefined_name', 'd[1]', "boom('true')", "boom('yes')", "boom('1')", "boom('t')", 'boom_base()',
               'x.nope', 'x >', ')(', "d['y']", "boom('false')", 'int(s)', 'boom_unprintable()',
@@ -86,12 +94,50 @@ WATCHES = ['x', 'G', 'y', 'helper', 'G + 1', 'GLIST', 'helper(x)', 'len(s)', 'x 
            ' x', '\tx + G', 'G ', '  helper(x)  ', "s.split('  ')", "'a  b' + s", "len('\t')"] + AGENT_ONLY
 
 
-def host_eval(expr, frame):
-    """-> ('ok', value) | ('fail', exception)"""
+def plain_eval(expr, frame):
+    """-> ('ok', value) | ('fail', exception): eval() with the two namespaces, where a generator expression or a lambda
+    inside the expression does not see the locals mapping (their free names are compiled as global look-ups)."""
     try:
         return 'ok', eval(expr, frame.f_globals, frame.f_locals)
     except BaseException as e:      # noqa
         return 'fail', e
+
+
+def host_eval(expr, frame):
+    """-> ('ok', value) | ('fail', exception): what the expression computes written on that line - the frame's locals
+    are the enclosing scope of everything in it (the expression is compiled inside a function whose parameters are the
+    frame's locals, with the frame's globals as its module namespace)."""
+    names = [n for n in frame.f_locals if isinstance(n, str) and n.isidentifier() and not keyword.iskeyword(n)]
+    if len(names) != len(frame.f_locals):
+        return plain_eval(expr, frame)
+    try:
+        with warnings.catch_warnings():
+            warnings.simplefilter('ignore')
+            compile(expr.strip(), '<expr>', 'eval')         # it has to be an expression on its own first
+            code = compile('def __expr__(%s):\n return (\n%s\n)' % (', '.join(names), expr.strip()), '<expr>', 'exec')
+    except BaseException as e:      # noqa
+        return 'fail', e
+    ns = {}
+    try:
+        exec(code, frame.f_globals, ns)
+        return 'ok', ns['__expr__'](*[frame.f_locals[n] for n in names])
+    except BaseException as e:      # noqa
+        return 'fail', e
+
+
+def same_outcome(a, b):
+    if a[0] != b[0]:
+        return False
+    if a[0] == 'fail':
+        return type(a[1]) is type(b[1])
+    try:
+        return type(a[1]) is type(b[1]) and bool(a[1] == b[1])
+    except BaseException:      # noqa
+        return False
+
+
+NESTED_SIG = ('%s with a generator expression / lambda naming a local of the frame: the nested scope does not see the '
+              'locals (the result is that of eval with separate namespaces, not what the line computes)')
 
 
 class C10(Prop):
@@ -123,7 +169,7 @@ class C10(Prop):
         # blanks before / after the expression text (as typed into a form)
         padded = st.tuples(st.sampled_from([' ', '\t', '  ']), st.one_of(grammar, st.sampled_from(BOOL_CONDS)),
                            st.sampled_from(['', ' '])).map(lambda t: t[0] + t[1] + t[2])
-        cond = st.one_of(cond, cond, cond, cond, cond, padded)
+        cond = st.one_of(cond, cond, cond, cond, cond, padded, st.sampled_from(NESTED_CONDS))
         hit = fd({'x': st.integers(0, 8), 'flag': st.booleans(), 'y': st.booleans(),
                                      't': st.booleans(), 'shadow': st.sampled_from([None, None, 99, 3]),
                                      's': st.sampled_from(['', 'abc', 'zzzz', '12', 'a  b', 'a b', 'x\ty']),
@@ -143,7 +189,8 @@ class C10(Prop):
                                 st.lists(st.sampled_from(AGENT_ONLY + ['G', 'x + G']), min_size=1, max_size=3, unique=True),
                                 # a watch that fails costs that watch only - whatever the error is like
                                 st.lists(st.sampled_from(FAILING_WATCHES + ['x', 'G']), min_size=1, max_size=3,
-                                         unique=True)),
+                                         unique=True),
+                                st.lists(st.sampled_from(NESTED_WATCHES + ['x']), min_size=1, max_size=2, unique=True)),
         })
 
     def run_case(self, recipe):
@@ -208,6 +255,7 @@ class C10(Prop):
             gen = lab.frame_at(PATH, LINE, 'target', local_values, globs=HOST_GLOBALS)
             frame = gen.gi_frame
             # ---- oracle ------------------------------------------------------------------------------
+            cond_gap = False
             if cond is None or not cond.strip():
                 truth = True
             else:
@@ -216,6 +264,9 @@ class C10(Prop):
                 if st_ == 'ok' and not isinstance(v, bool):
                     gen.close()
                     continue
+                if cond in NESTED_CONDS:
+                    out.cls('nested_scope_expression')
+                cond_gap = not same_outcome((st_, v), plain_eval(cond, frame))
             t = lab.CLOCK.now + 0      # the agent reads the clock once per event
             n0 = (len(push.snapshots), len(logger.calls), len(mproc.calls), len(sproc.spans))
             try:
@@ -248,6 +299,11 @@ class C10(Prop):
             if out.violations:
                 gen.close()
                 break
+            if acted != (1 if expect else 0) and cond_gap and limits_allow:
+                # one root cause, told apart by what the two evaluations give: the expression's nested scope
+                out.violate(NESTED_SIG % 'condition', {'cond': cond, 'hit': hi, 'acted': acted})
+                gen.close()
+                break
             if acted != (1 if expect else 0):
                 if acted and not truth:
                     st_, v = host_eval(cond, frame) if cond and cond.strip() else ('ok', True)
@@ -273,6 +329,14 @@ class C10(Prop):
                     out.violate('watch list differs from configuration')
                 for w in got:
                     st_, v = host_eval(w.expression, frame)
+                    if w.expression in NESTED_WATCHES:
+                        out.cls('nested_scope_expression')
+                    if not same_outcome((st_, v), plain_eval(w.expression, frame)):
+                        pst, pv = plain_eval(w.expression, frame)
+                        agrees_with_plain = (pst == 'fail') == (w.result is None)
+                        if agrees_with_plain:
+                            out.violate(NESTED_SIG % 'watch', {'expr': w.expression})
+                            continue
                     where = 'agent-only name' if w.expression in AGENT_ONLY else \
                         'host global' if any(g in w.expression for g in ('G', 'helper')) else 'expression'
                     if st_ == 'fail':
